@@ -17,6 +17,9 @@ import seams
 import workload
 
 BAD_MODE = "no_such_output_mode"
+# per-run focus file for dense line-level pre-emption (None = uniform)
+FOCUS = [None, "/output/", "/output/", "/output/table_data.py", "/output/core.py", "simple_ddl_parser/parser.py",
+         "simple_ddl_parser/ddl_parser.py", "/dialects/", "simple_ddl_parser/utils.py", "/ply/lex.py", "/ply/yacc.py"]
 
 
 def _snapshot(root):
@@ -45,10 +48,11 @@ def _snap_diff(a, b):
 
 
 class ParsersWorld:
-    def __init__(self, tree, workroot, ref):
+    def __init__(self, tree, workroot, ref, ref_x=None):
         self.tree = tree
         self.workroot = workroot
         self.ref = ref
+        self.ref_x = ref_x          # pristine reference in an interpreter with ANOTHER hash seed (C14 only)
         import simple_ddl_parser
         assert os.path.abspath(simple_ddl_parser.__file__).startswith(os.path.abspath(tree))
         from simple_ddl_parser import DDLParser, parse_from_file
@@ -75,13 +79,39 @@ class ParsersWorld:
             "line_cancel": rs.random() < (0.25 if tier == "quick" else 0.4),
             "p_new": rs.choice([0.1, 0.2, 0.35]),
         }
+        if rs.random() < (0.04 if tier == "quick" else 0.1):
+            # marathon arm: one long-lived process, many objects (runs are otherwise short and each starts
+            # from a pristine process image)
+            swarm.update(nops=rs.choice([25, 40, 60]), p_new=0.45, marathon=True)
         ops = []
         cur = None
         last_kw = None
         for i in range(swarm["nops"]):
             r = ro.random()
             if cur is None or r < swarm["p_new"]:
-                it = workload.pick_item(rw, swarm["p_corpus"])
+                if cur is not None and ro.random() < 0.35:
+                    # a fresh object over the SAME text with other constructor flags (anything keyed by
+                    # the text alone - a memo, a shared lexer - shows here)
+                    flags = dict(cur["flags"])
+                    t = ro.random()
+                    if t < 0.7:
+                        if flags.get("normalize_names"):
+                            flags.pop("normalize_names")
+                        else:
+                            flags["normalize_names"] = True
+                    if t >= 0.4:
+                        if flags.get("silent", True) is False:
+                            flags.pop("silent")
+                        else:
+                            flags["silent"] = False
+                    it = {"ddl": cur["ddl"], "flags": flags, "run": dict(cur["run"]),
+                          "src": cur["src"].split("+")[0] + "+reflag"}
+                elif cur is not None and ro.random() < 0.25 and workload.tables_of(cur["ddl"]):
+                    # a fresh object whose script only alters / indexes the PREVIOUS object's tables
+                    ddl, shape = workload.gen_followup(ro, workload.tables_of(cur["ddl"]))
+                    it = {"ddl": ddl, "flags": dict(cur["flags"]), "run": dict(cur["run"]), "src": "gen:" + ",".join(shape)}
+                else:
+                    it = workload.pick_item(rw, swarm["p_corpus"])
                 cur = it
                 last_kw = None
                 ops.append({"op": "new", "ddl": it["ddl"], "flags": it["flags"], "src": it["src"]})
@@ -133,7 +163,7 @@ class ParsersWorld:
         st = {"violations": [], "stats": {"ops": 0, "refs": 0, "cancel_stmt_fired": 0, "cancel_line_fired": 0,
                                            "dump_fault_fired": 0, "reruns": 0, "mode_changes": 0,
                                            "after_fault_checks": 0, "stmts": 0, "cancel_in_multi": 0,
-                                           "objects": 0, "exc_outcomes": 0},
+                                           "objects": 0, "exc_outcomes": 0, "refs_other_hashseed": 0},
               "kinds": []}
         chooser = sched.ListChooser([])
         S = sched.Scheduler(chooser, labels=(), trace_prefixes=self.trace_prefixes if need_trace else None,
@@ -185,6 +215,7 @@ class ParsersWorld:
             outcome = None
             faulted = False
             settings_before = None
+            ref_args = None
             if kind == "new":
                 cur = {"ddl": op["ddl"], "flags": dict(op["flags"])}
                 prev_kw = None
@@ -206,7 +237,8 @@ class ParsersWorld:
                     outcome = ["ok", core.canon(r)]
                 except Exception as e:  # noqa
                     outcome = core.outcome_of_exception(e)
-                expected = self.ref(cur["ddl"], cur["flags"], {"output_mode": BAD_MODE})
+                ref_args = (cur["ddl"], cur["flags"], {"output_mode": BAD_MODE})
+                expected = self.ref(*ref_args)
                 stats["refs"] += 1
                 st["kinds"].append("bad_mode")
             elif kind == "from_file":
@@ -229,7 +261,8 @@ class ParsersWorld:
                     st["violations"].append({"oracle": "args_modified", "op_index": i,
                                              "expected": settings_before, "observed": core.canon(settings)})
                 if outcome is not None:
-                    expected = self.ref(cur["ddl"], cur["flags"], op["kw"])
+                    ref_args = (cur["ddl"], cur["flags"], op["kw"])
+                    expected = self.ref(*ref_args)
                     stats["refs"] += 1
                 st["kinds"].append("from_file")
             elif kind == "run":
@@ -279,7 +312,8 @@ class ParsersWorld:
                     stats["dump_fault_fired"] += 1
                     faulted = True
                 if not faulted:
-                    expected = self.ref(cur["ddl"], cur["flags"], ref_kw)
+                    ref_args = (cur["ddl"], cur["flags"], ref_kw)
+                    expected = self.ref(*ref_args)
                     stats["refs"] += 1
                     if faulted_before:
                         stats["after_fault_checks"] += 1
@@ -296,6 +330,16 @@ class ParsersWorld:
                                          "expected": core.short(expected, 600), "observed": core.short(outcome, 600),
                                          "diff": core.first_diff(expected, outcome),
                                          "after_fault": faulted_before})
+            # oracle 1b: a pristine process under ANOTHER hash seed returns an equal result (both sides are
+            # pristine single-use processes, so a difference is attributable to the hash seed alone)
+            if expected is not None and self.ref_x is not None and not st["violations"] and ref_args is not None:
+                expected_x = self.ref_x(*ref_args)
+                stats["refs_other_hashseed"] += 1
+                if expected_x != expected:
+                    st["violations"].append({"oracle": "hashseed_dependent", "op_index": i, "op": kind,
+                                             "hashseeds": [os.environ.get("PYTHONHASHSEED"), str(self.ref_x.hashseed)],
+                                             "expected": core.short(expected, 600), "observed": core.short(expected_x, 600),
+                                             "diff": core.first_diff(expected, expected_x)})
             # oracle 2: returned results are never modified
             for (j, val, dg) in held:
                 if core.digest_of(core.canon(val)) != dg:
@@ -316,19 +360,45 @@ class ParsersWorld:
     def gen_c15(self, seed, tier="quick", gran=None):
         rs, ro, rw, rf = (core.stream(seed, n) for n in ("swarm", "ops", "workload", "faults"))
         if gran is None:
-            gran = rs.choice(["O", "S", "S", "S"] if tier == "quick" else ["O", "S", "S", "L", "L", "L"])
+            gran = rs.choice(["O", "S", "S", "S", "S", "L"] if tier == "quick" else ["O", "S", "S", "L", "L", "L"])
         else:
             rs.random()
         k = rs.choice([2, 2, 3, 3, 4])
         swarm = {"gran": gran, "k": k, "p_corpus": rs.choice([0.3, 0.6, 0.9]),
                  "p_line": rs.choice([0.0005, 0.002, 0.01]) if gran == "L" else 0.0,
+                 "focus": rs.choice(FOCUS) if gran == "L" else None,
+                 "p_focus": rs.choice([0.03, 0.1, 0.3]) if gran == "L" else 0.0,
                  "cancel_arm": rs.random() < 0.2, "max_len": 2500 if gran == "L" else 6000}
         tasks = []
         for t in range(k):
-            it = workload.pick_item(rw, swarm["p_corpus"], max_len=swarm["max_len"])
+            share = ro.random()
+            if t > 0 and share < 0.25:
+                # the same text as the neighbour under other settings: anything keyed by the text alone
+                # (a statement cache, a shared lexer) shows as one object using the other's settings
+                prev = tasks[-1]
+                it = {"ddl": prev["ddl"], "flags": dict(prev["flags"]), "run": dict(prev["runs"][0]),
+                      "src": "gen:" + prev["src"].split(":", 1)[-1] + "+same"}
+            elif t > 0 and share < 0.4 and workload.tables_of(tasks[-1]["ddl"]):
+                ddl, shape = workload.gen_followup(ro, workload.tables_of(tasks[-1]["ddl"]))
+                it = {"ddl": ddl, "flags": dict(tasks[-1]["flags"]), "run": {}, "src": "gen:" + ",".join(shape)}
+            else:
+                it = workload.pick_item(rw, swarm["p_corpus"], max_len=swarm["max_len"])
             flags = dict(it["flags"])
             # make settings differ between neighbours: interference shows as using another's settings
-            if t > 0 and it["src"].startswith("gen:"):
+            if t > 0 and it["src"].endswith("+same"):
+                prev = tasks[-1]["flags"]
+                c = ro.random()
+                if c < 0.65:
+                    if prev.get("normalize_names"):
+                        flags.pop("normalize_names", None)
+                    else:
+                        flags["normalize_names"] = True
+                if c >= 0.35:
+                    if prev.get("silent", True) is False:
+                        flags.pop("silent", None)
+                    else:
+                        flags["silent"] = False
+            elif t > 0 and it["src"].startswith("gen:"):
                 prev = tasks[-1]["flags"]
                 if ro.random() < 0.6:
                     if prev.get("normalize_names"):
@@ -383,7 +453,8 @@ class ParsersWorld:
         elif "schedule" in trace:
             chooser = sched.ListChooser(trace["schedule"])
         else:
-            chooser = sched.PrngChooser(core.stream(trace["seed"], "schedule"), p_line=swarm.get("p_line", 0.0))
+            chooser = sched.PrngChooser(core.stream(trace["seed"], "schedule"), p_line=swarm.get("p_line", 0.0),
+                                        focus=swarm.get("focus"), p_focus=swarm.get("p_focus", 0.0))
         S = sched.Scheduler(chooser, labels=self.LABELS[gran],
                             trace_prefixes=self.trace_prefixes if gran == "L" else None,
                             trace_exclude=("parsetab.py",))
@@ -511,7 +582,7 @@ class ParsersWorld:
         for order in self.enum_orders(tasks):
             t = dict(trace)
             t["order"] = order
-            res = self.exec_c15(t, keep_events=False)
+            res = self.execute(t, keep_events=False)
             out["orderings"] += 1
             out["keys"].append(core.digest_of(res.get("kinds"))[:16])
             out["stats"]["switches"] += res["stats"].get("switches", 0)
@@ -527,15 +598,22 @@ class ParsersWorld:
         res = {"status": "violation" if st["violations"] else "ok", "violations": st["violations"],
                "dkey": core.digest_of([st["kinds"], srcs if trace.get("prop") == "C14" else []])[:16],
                "digest": log.digest(), "ops_digest": log.ops_digest(), "stats": st["stats"],
-               "kinds": st["kinds"], "trace": trace, "nevents": log.seq}
+               "kinds": st["kinds"], "trace": trace, "nevents": log.seq,
+               "ref_hashseed": self.ref_x.hashseed if self.ref_x is not None else None}
         if extra:
             res.update(extra)
         return res
 
-    def execute(self, trace, keep_events=False):
+    def execute_here(self, trace, keep_events=False):
         if trace["prop"] == "C14":
             return self.exec_c14(trace, keep_events)
         return self.exec_c15(trace, keep_events)
+
+    def execute(self, trace, keep_events=False):
+        """Every run starts from the same process state: executed in a forked child (isolate.py)."""
+        import isolate
+        res = isolate.run_isolated(lambda: self.execute_here(trace, keep_events), ref=_Refs(self.ref, self.ref_x))
+        return res
 
     def generate(self, prop, seed, tier, **kw):
         return self.gen_c14(seed, tier) if prop == "C14" else self.gen_c15(seed, tier, **kw)
@@ -563,5 +641,33 @@ class _OrderChooser:
     def at_label(self, cur, dp, runnable):
         return self._next(cur, dp, runnable)
 
-    def at_line(self, cur, dp, others):
+    def at_line(self, cur, dp, others, filename=None):
         return cur
+
+
+class _Refs:
+    """Lets isolate.run_isolated carry the memo deltas of both references back to the worker."""
+
+    def __init__(self, *refs):
+        self.refs = [r for r in refs if r is not None]
+
+    @property
+    def new_entries(self):
+        return [((n, k), v) for n, r in enumerate(self.refs) for (k, v) in r.new_entries]
+
+    @new_entries.setter
+    def new_entries(self, value):
+        for r in self.refs:
+            r.new_entries = []
+
+    class _Memo:
+        def __init__(self, refs):
+            self.refs = refs
+
+        def setdefault(self, k, v):
+            n, key = k
+            self.refs[n].memo.setdefault(key, v)
+
+    @property
+    def memo(self):
+        return _Refs._Memo(self.refs)
